@@ -491,3 +491,38 @@ def history(rng, nops, weights=None, with_plates=True, trace=False):
             else:
                 g.transfer_cp(frac=2.0)
     return g
+
+
+def twin_plate_cases(seed, n=3):
+    """two plate objects with ONE name (replicates), loaded differently, then transfers between disjoint rows of the two: the
+    operands are objects, not names"""
+    import random
+    out = []
+    for i in range(n):
+        rng = random.Random(seed * 7907 + i)
+        g = Gen(rng, kinds=('Liquid', 'Solid', 'Liquid'))
+        a = g.new_container(nsub=2)
+        b = g.new_container(nsub=2)
+        p = g.new_plate(rows=2, cols=3, max_ul=1000)
+        if a is None or b is None or p is None:
+            continue
+        t = g.new_plate(twin_of=p)
+        if t is None:
+            continue
+        rowA = {'rect': [[0], [0, 1, 2]]}
+        rowB = {'rect': [[1], [0, 1, 2]]}
+
+        def load(c, pl, region, ul):
+            op = {'op': 'transfer', 'src': {'c': c}, 'dst': {'p': pl, 'r': region}, 'q': {'v': str(ul), 'p': 'u', 'b': 'L'}, 'osrc': g.fresh(), 'odst': g.fresh()}
+            o = g.emit(op, 'twin:load')
+            return (op['osrc'], op['odst']) if o['ok'] else (c, pl)
+        a, p = load(a, p, rowA, rng.choice([40, 60]))
+        b, t = load(b, t, rowA, rng.choice([20, 30]))
+        b, t = load(b, t, rowB, rng.choice([15, 25]))
+        for rs, rd, q in (({'rect': [[0], [0]]}, rowB, '5'), (rowA, rowB, '7'), (rowA, {'rect': [[1], [2]]}, '3')):
+            op = {'op': 'transfer', 'src': {'p': p, 'r': rs}, 'dst': {'p': t, 'r': rd}, 'q': {'v': q, 'p': 'u', 'b': 'L'}, 'osrc': g.fresh(), 'odst': g.fresh()}
+            o = g.emit(op, 'twin:pp')
+            if o['ok']:
+                p, t = op['osrc'], op['odst']
+        out.append(g)
+    return out
